@@ -122,7 +122,8 @@ def _rebound_only(term, oracle):
     clash = {n for n in names if len({m for m, nn in v_seq if nn == n and m not in BUILTIN_FAMILY} |
                                      ({"builtins"} if any(nn == n and m in BUILTIN_FAMILY for m, nn in v_seq) else set())) > 1}
     d_seq = [(node.module, a.name) for node in ast.walk(tree) if isinstance(node, ast.ImportFrom) for a in node.names]
-    norm = lambda seq: [("builtins" if m in BUILTIN_FAMILY else m, n) for m, n in seq if n in clash]  # noqa: E731
+    # (globals of the builtins family are referred to without an import statement: they are not part of the sequence)
+    norm = lambda seq: [(m, n) for m, n in seq if n in clash and m not in BUILTIN_FAMILY]  # noqa: E731
     return norm(v_seq) == norm(d_seq)
 
 
